@@ -25,27 +25,30 @@ HEADER_SIZE = 65536  # docs/WIRE_PROTOCOL.md §11 (also asserted against vgi_rpc
 #: the writer adds to every estimate; the last is an 8 MiB segment.
 SEG_DATA = [1, 4096, 4097, 4600, 8192, 12_000, 16_384, 65_536, 262_144, 1 << 20, (8 << 20) - HEADER_SIZE]
 
-_T_COMMON = [2048, 600, 1000, 1024, 1100, 4096, 5000, 9000, 20_000, 70_000]
-_T_RARE = [300_000, 1_200_000]
 
 _mk = lambda t, b: {"t": t, "b": b}  # noqa: E731
+_T_SMALL = [600, 1000]
+_T_MID = [2048, 1024, 1100, 4096, 5000, 9000, 20_000, 70_000]
+_T_RARE = [300_000, 1_200_000]
 _target = st.one_of(
-    st.builds(_mk, st.sampled_from(_T_COMMON), st.integers(0, 1)),
+    st.builds(_mk, st.sampled_from(_T_MID), st.integers(0, 1)),
     st.none(),
-    st.builds(_mk, st.sampled_from(_T_COMMON), st.integers(0, 1)),
-    st.builds(_mk, st.sampled_from(_T_COMMON), st.integers(0, 1)),
+    st.builds(_mk, st.sampled_from(_T_MID), st.integers(0, 1)),
+    st.builds(_mk, st.sampled_from(_T_MID), st.integers(0, 1)),
+    st.builds(_mk, st.sampled_from(_T_MID), st.integers(0, 1)),
     st.builds(_mk, st.integers(900, 1200), st.integers(0, 1)),
-    st.builds(_mk, st.sampled_from(_T_COMMON + _T_RARE), st.just(0)),
+    st.builds(_mk, st.sampled_from(_T_SMALL + _T_MID + _T_RARE), st.just(0)),
 )
 
 #: index into SEG_DATA; the first entry is what shrinking converges to (a mid-size segment keeps shm in play)
 _SEG_IDX = [6, 0, 1, 2, 3, 4, 4, 5, 5, 6, 6, 7, 7, 7, 8, 8, 9, 9, 10]
 
-_DICT_OF = {"utf8": "dict_utf8", "int64": "dict_int64"}
-
-
-def _dictify(draw: st.DrawFn, cols: list[dict[str, str]]) -> list[dict[str, str]]:
-    return [{"name": c["name"], "type": _DICT_OF[c["type"]] if c["type"] in _DICT_OF and draw(st.integers(0, 2)) == 0 else c["type"]} for c in cols]
+@st.composite
+def _cols(draw: st.DrawFn, allow_empty: bool = True) -> list[dict[str, str]]:
+    """Like ``programs._cols`` but not biased towards the zero-column schema; 1/3 of utf8/int64 columns dictionary-encoded."""
+    n = draw(st.sampled_from([1, 2, 3, 0, 1, 2] if allow_empty else [1, 2, 3]))
+    types = list(RT.ARROW_TYPES) + ["dict_utf8", "dict_int64", "utf8", "int64"]
+    return [{"name": f"c{i}", "type": draw(st.sampled_from(types))} for i in range(n)]
 
 
 @st.composite
@@ -83,14 +86,20 @@ def _method(draw: st.DrawFn, idx: int) -> dict[str, Any]:
         m["behaviour"] = {"logs": draw(programs._logs(2)), "action": action}
         return m
     m["header"] = draw(programs._header())
-    m["out_cols"] = _dictify(draw, draw(programs._cols()))
-    m["init"] = {"logs": draw(programs._logs(1)), "action": draw(st.one_of(*([st.just({"op": "ok"})] * 7 + [programs._raise_action])))}
+    m["out_cols"] = draw(_cols())
+    # rare choices sit on interior indices: Hypothesis favours the ends of small integer ranges
+    init_raises = draw(st.integers(0, 13)) == 6
+    m["init"] = {"logs": draw(programs._logs(1)), "action": draw(programs._raise_action) if init_raises else {"op": "ok"}}
     if kind == "producer":
-        step = st.one_of(*([_emit(m["out_cols"], True)] * 8 + [st.just({"op": "finish"}), programs._raise_action]))
+        step = st.integers(0, 11).flatmap(
+            lambda k: programs._raise_action if k == 5 else st.just({"op": "finish"}) if k == 8 else _emit(m["out_cols"], True)
+        )
         m["steps"] = draw(st.lists(st.fixed_dictionaries({"logs": programs._logs(1), "action": step}), min_size=1, max_size=6))
     else:
-        m["in_cols"] = _dictify(draw, draw(programs._cols(allow_empty=False)))
-        resp = st.one_of(*([_emit(m["out_cols"], False)] * 5 + [st.just({"op": "echo_len"})] * 2 + [programs._raise_action]))
+        m["in_cols"] = draw(_cols(allow_empty=False))
+        resp = st.integers(0, 11).flatmap(
+            lambda k: programs._raise_action if k == 5 else st.just({"op": "echo_len"}) if k in (3, 8) else _emit(m["out_cols"], False)
+        )
         m["responses"] = draw(st.lists(st.fixed_dictionaries({"logs": programs._logs(1), "action": resp}), min_size=0, max_size=5))
     return m
 
